@@ -409,7 +409,8 @@ class Check:
         ev = {"property_id": self.pid, "tier": self.tier, "seed": seed(), "level": self.level,
               "coverage": cov, "assumptions": self.assumptions, "wall_s": round(wall, 2),
               "violations": len(self.violations)}
-        if not self.replay:
+        # a run against a copy of the repository (seed testing: VERIF_REPO) is not evidence about /repo
+        if not self.replay and REPO == "/repo":
             os.makedirs(os.path.join(VERIF, "evidence"), exist_ok=True)
             tmp = os.path.join(VERIF, "evidence", self.pid + ".json.tmp")
             with open(tmp, "w") as fh:
